@@ -61,7 +61,11 @@ def flush():
         open(p, "w", encoding="utf-8").write("[" + ",".join(cur) + "]")
         chunks.append({"path": p, "n": len(cur)})
         cur, size = [], 0
+skipped = 0
 for name in files:
+    always = True
+    if isinstance(name, list):
+        name, always = name
     m = NAME_RE.match(name)
     if not m or m.group("cls") not in cmap:
         bad_names.append(name)
@@ -70,6 +74,14 @@ for name in files:
     data = json.load(open(os.path.join(root, name), encoding="utf-8"))
     label = m.group("label") == "True"
     ok = True
+    if not always:
+        # selection only (TLC stays the judge): a False vector outside the sample is handed to TLC when the
+        # package itself accepts it - that is where a wrong False label would show
+        try:
+            conv.structure(data, cls)
+        except BaseException:
+            skipped += 1
+            continue
     if label:
         try:
             conv.structure(data, cls)
@@ -81,7 +93,7 @@ for name in files:
     if size > CHUNK:
         flush()
 flush()
-print(json.dumps({"chunks": chunks, "bad_names": bad_names, "classes": sorted((k, m) for k, m, _ in cmap.values())}))
+print(json.dumps({"chunks": chunks, "bad_names": bad_names, "skipped": skipped, "classes": sorted((k, m) for k, m, _ in cmap.values())}))
 '''
 
 
@@ -114,7 +126,7 @@ def process(args):
             for pair in t:
                 seen.add((pair[0], pair[1]))
         os.unlink(ch["path"])
-    return {"fails": fails, "seen": sorted(seen), "unspec": unspec, "n": n, "bad_names": info["bad_names"], "classes": info["classes"]}
+    return {"fails": fails, "seen": sorted(seen), "unspec": unspec, "n": n, "bad_names": info["bad_names"], "classes": info["classes"], "skipped": info.get("skipped", 0)}
 
 
 def where(vec, verdict):
@@ -143,19 +155,19 @@ def check(tier, model=None):
         for n in bad_pattern[:20]:
             rep.violation({"clause": "V_name", "name": n[:60]}, {"file": n})
         good = [n for n in names if NAME_RE.match(n)]
-        if tier == "quick":
-            sel = [n for n in good if "-True-" in n or n[-6] in "08"]      # every True vector + 1/8 of the False ones
-        else:
-            sel = good
+        # every vector is judged in both tiers (about a minute); a sampling quick tier missed a seeded change that
+        # mislabelled 6 of 74,156 vectors.  The worker still knows how to pre-select ([name, always] entries).
+        sel = good
         nproc = common.NCPU
         parts = [sel[i::nproc] for i in range(nproc)]
         with cf.ThreadPoolExecutor(max_workers=nproc) as ex:
             res = list(ex.map(process, [(pt, i, out, work, model) for i, pt in enumerate(parts) if pt]))
     finally:
         shutil.rmtree(work, ignore_errors=True)
-    seen, classes, n, unspec = set(), set(), 0, 0
+    seen, classes, n, unspec, skipped = set(), set(), 0, 0, 0
     for r in res:
         n += r["n"]
+        skipped += r.get("skipped", 0)
         unspec += r["unspec"]
         seen |= {tuple(x) for x in r["seen"]}
         classes |= {tuple(x) for x in r["classes"]}
@@ -167,10 +179,10 @@ def check(tier, model=None):
     for c in sorted(classes - seen):
         rep.violation({"clause": "V_no_true_vector", "class": "%s:%s" % c}, {"class": c})
     sample = []
-    rep.coverage.update({"states": n + 1, "transitions": n, "traces_validated_against_impl": n, "files_written_by_plugin": total,
+    rep.coverage.update({"states": n + 1, "transitions": n, "traces_validated_against_impl": n, "files_written_by_plugin": total, "false_vectors_not_judged_in_this_tier": skipped,
                          "vectors_judged": n, "verdict_unspecified": unspec, "message_classes": len(classes), "classes_with_valid_true_vector": len(seen & classes),
                          "exhaustive": tier == "thorough",
-                         "rule": "the real CLI writes the corpus; quick judges every True vector and 1/8 of the False ones (by hash digit), thorough all; file names checked on all files; Strict3 evaluated by TLC per vector; unspecified zones (integral float at integer position, params:null without params, extension keys on property-less structures) demand no label",
+                         "rule": "the real CLI writes the corpus; every vector is judged in both tiers; file names checked on all files; Strict3 evaluated by TLC per vector; unspecified zones (integral float at integer position, params:null without params, extension keys on property-less structures) demand no label",
                          "samples": [{"file_name_pattern": NAME_RE.pattern}, {"first_files": names[:2]}]})
     rep.assumptions = ["class name -> (kind, method) through the Python package's METHOD_TO_TYPES (checked by C09)", "float-preserving JSON encoding of harness/check_c17.py"]
     return rep
